@@ -131,7 +131,7 @@ func c05Instances(name string, lvl int) []c05Inst {
 			base := joinInts(t)
 			add(c05Inst{construct: "^X.Y.Z", rng: "^" + base, lo: base, loIncl: true, hi: sem(caretUpper(t)) + "-0"})
 			add(c05Inst{construct: "~X.Y.Z", rng: "~" + base, lo: base, loIncl: true, hi: sem(tildeUpper(t)) + "-0"})
-			for _, pre := range []string{"-alpha.2", "-0", "-rc", "+build.5", "-rc.1+b-1"} {
+			for _, pre := range []string{"-alpha.2", "-0", "-rc", "+build.5", "-rc.1+b-1", "-RC.1", "-Beta"} {
 				add(c05Inst{construct: "^X.Y.Z-pre", rng: "^" + base + pre, lo: base + pre, loIncl: true, hi: sem(caretUpper(t)) + "-0"})
 				add(c05Inst{construct: "~X.Y.Z-pre", rng: "~" + base + pre, lo: base + pre, loIncl: true, hi: sem(tildeUpper(t)) + "-0"})
 			}
@@ -167,7 +167,7 @@ func c05Instances(name string, lvl int) []c05Inst {
 			base := joinInts(t)
 			add(c05Inst{construct: "^X.Y.Z", rng: "^" + base, lo: base, loIncl: true, hi: sem(caretUpper(t)), hiCore: caretUpper(t)})
 			add(c05Inst{construct: "~X.Y.Z", rng: "~" + base, lo: base, loIncl: true, hi: sem(tildeUpper(t)), hiCore: tildeUpper(t)})
-			for _, pre := range []string{"-alpha.2", "-0", "-rc", "+build.5", "-rc.1+b-1"} {
+			for _, pre := range []string{"-alpha.2", "-0", "-rc", "+build.5", "-rc.1+b-1", "-RC.1", "-Beta"} {
 				add(c05Inst{construct: "^X.Y.Z-pre", rng: "^" + base + pre, lo: base + pre, loIncl: true, hi: sem(caretUpper(t)), hiCore: caretUpper(t)})
 				add(c05Inst{construct: "~X.Y.Z-pre", rng: "~" + base + pre, lo: base + pre, loIncl: true, hi: sem(tildeUpper(t)), hiCore: tildeUpper(t)})
 			}
@@ -261,7 +261,7 @@ func c05Instances(name string, lvl int) []c05Inst {
 		for _, t := range t3 {
 			base := joinInts(t)
 			add(c05Inst{construct: "~>X.Y.Z", rng: "~> " + base, lo: base, loIncl: true, hi: sem(tildeUpper(t)), hiCore: tildeUpper(t)})
-			for _, pre := range []string{"-rc.1", "-0", "-dev", "+build.5"} {
+			for _, pre := range []string{"-rc.1", "-0", "-dev", "+build.5", "-RC.1"} {
 				add(c05Inst{construct: "~>X.Y.Z-pre", rng: "~> " + base + pre, lo: base + pre, loIncl: true, hi: sem(tildeUpper(t)), hiCore: tildeUpper(t)})
 			}
 		}
@@ -496,6 +496,20 @@ func c05Unit(name string, lvl, shard int) core.Unit {
 				continue
 			}
 			r.SetAdd("constructs", name+": "+in.construct)
+			// the base itself, exactly as written in the range (pre-release / build / upper-case bases
+			// are not on the probe grid)
+			if in.lo != "" {
+				if lv, err := eco.SafeParse(e, in.lo); err == nil {
+					if want, ok := c05Expect(e, in, lv); ok {
+						got, p := eco.SafeContains(rgs[i], lv)
+						r.Add("evaluations", 1)
+						if p != nil || got != want {
+							r.Violate(core.Violation{Property: "C05", Scope: name, Kind: "membership", Inputs: []string{in.rng, in.lo, in.construct},
+								Expected: fmt.Sprintf("Contains=%v (documented interval %s)", want, c05Describe(in)), Got: fmt.Sprintf("Contains=%v", got), Note: in.construct + ";base"})
+						}
+					}
+				}
+			}
 			for k, pv := range pvs {
 				if pv == nil {
 					continue
